@@ -18,6 +18,7 @@ func tablesFacts(l *loader, out string, all map[string]any) {
 	factoryFacts(l, out, all)
 	accessorFacts(l, out, all)
 	pathsFacts(l, out, all)
+	parserConsts(l, out, all)
 }
 
 // ---- allowed attributes (C17) -------------------------------------------------------------------
@@ -590,4 +591,107 @@ func pathsFacts(l *loader, out string, all map[string]any) {
 	writeFile(out, "Paths.v", sb.String())
 	all["entry_points"] = entries
 	all["legacy_getter_sites"] = sites
+}
+
+// ---- parser constants (C18): entity names, void elements, the entity replacement table ------------
+func coqBytes(s string) string {
+	parts := make([]string, len(s))
+	for i := 0; i < len(s); i++ {
+		parts[i] = fmt.Sprintf("x%02x", s[i])
+	}
+	return "[" + strings.Join(parts, "; ") + "]"
+}
+
+func mapKeys(info *types.Info, f *ast.File, varName string) []string {
+	var keys []string
+	ast.Inspect(f, func(n ast.Node) bool {
+		vs, ok := n.(*ast.ValueSpec)
+		if !ok {
+			return true
+		}
+		for i, name := range vs.Names {
+			if name.Name == varName && i < len(vs.Values) {
+				if cl, ok := vs.Values[i].(*ast.CompositeLit); ok {
+					for _, el := range cl.Elts {
+						if kv, ok := el.(*ast.KeyValueExpr); ok {
+							if tv, ok := info.Types[kv.Key]; ok && tv.Value != nil {
+								keys = append(keys, constant.StringVal(tv.Value))
+							}
+						}
+					}
+				}
+			}
+		}
+		return true
+	})
+	return keys
+}
+
+func parserConsts(l *loader, out string, all map[string]any) {
+	p := modPath + "/parser"
+	info := l.infos[p]
+	var named, voids []string
+	var pairs [][2]string
+	consts := map[string]string{}
+	for _, f := range l.files[p] {
+		named = append(named, mapKeys(info, f, "namedHTMLEntities")...)
+		voids = append(voids, mapKeys(info, f, "htmlVoidElements")...)
+		for _, d := range f.Decls {
+			if fd, ok := d.(*ast.FuncDecl); ok && fd.Name.Name == "preprocessHTMLEntities" && fd.Body != nil {
+				ast.Inspect(fd.Body, func(n ast.Node) bool {
+					if c, ok := n.(*ast.CallExpr); ok && qualifiedCallee(info, c) == "strings.ReplaceAll" && len(c.Args) == 3 {
+						a, okA := info.Types[c.Args[1]]
+						b, okB := info.Types[c.Args[2]]
+						if okA && okB && a.Value != nil && b.Value != nil {
+							pairs = append(pairs, [2]string{constant.StringVal(a.Value), constant.StringVal(b.Value)})
+						}
+					}
+					return true
+				})
+			}
+			if gd, ok := d.(*ast.GenDecl); ok && gd.Tok == token.CONST {
+				for _, sp := range gd.Specs {
+					vs := sp.(*ast.ValueSpec)
+					for i, nm := range vs.Names {
+						if i < len(vs.Values) {
+							if tv, ok := info.Types[vs.Values[i]]; ok && tv.Value != nil && tv.Value.Kind() == constant.String {
+								consts[nm.Name] = constant.StringVal(tv.Value)
+							}
+						}
+					}
+				}
+			}
+		}
+	}
+	sort.Strings(voids) // buildVoidElementsRegexPattern sorts them
+	var sb strings.Builder
+	sb.WriteString("(* GENERATED by gen/gomjml-facts from /repo's working tree on every check run. Do not edit. *)\n")
+	sb.WriteString("From Coq Require Import List.\nFrom Coq.Strings Require Import Byte.\nImport ListNotations.\n\n")
+	wl := func(name string, l []string) {
+		fmt.Fprintf(&sb, "Definition %s : list (list byte) := [\n", name)
+		for i, s := range l {
+			if i > 0 {
+				sb.WriteString(";\n")
+			}
+			sb.WriteString("  " + coqBytes(s))
+		}
+		sb.WriteString("].\n")
+	}
+	wl("named_entities", named)
+	wl("void_names", voids)
+	sb.WriteString("Definition entity_table : list (list byte * list byte) := [\n")
+	for i, pr := range pairs {
+		if i > 0 {
+			sb.WriteString(";\n")
+		}
+		fmt.Fprintf(&sb, "  (%s, %s)", coqBytes(pr[0]), coqBytes(pr[1]))
+	}
+	sb.WriteString("].\n")
+	for _, k := range []string{"openNeedle", "closeNeedle", "cdataStart", "cdataEnd", "cdataEndSafe"} {
+		fmt.Fprintf(&sb, "Definition src_%s : list byte := %s.\n", k, coqBytes(consts[k]))
+	}
+	writeFile(out, "ParserConsts.v", sb.String())
+	all["named_entities"] = named
+	all["void_names"] = voids
+	all["entity_table"] = pairs
 }
